@@ -1071,6 +1071,17 @@ func (w *world) exec1(op string) string {
 		}
 
 		return "bad-op"
+	case "wbig":
+		// a large set 0..n-1 of four- or eight-byte elements: the entry count needs more than 16 bits
+		n, _ := strconv.Atoi(f[2])
+		switch f[1] {
+		case "u32":
+			return wbig(w, "uint32", n, func(x uint64) uint32 { return uint32(x) })
+		case "u64":
+			return wbig(w, "uint64", n, func(x uint64) uint64 { return x })
+		}
+
+		return "bad-op"
 	case "codec":
 		return "ok"
 	case "tnew", "tset", "tdel", "tenc", "tdec":
@@ -1163,6 +1174,54 @@ func wenc[T comparable](w *world, name string, l []uint64, conv func(uint64) T) 
 	}
 
 	return hx.Hex(b) + " | " + st + " [" + strings.Join(shown, " ") + "]"
+}
+
+// wbig: Encode and Decode of a set with n elements 0..n-1 (n around 2^16: the count prefix must not be narrower than the
+// uint32 the model has).  Oracle "codec-roundtrip" as in wenc, on the set and on the map type with one-byte values.  The answer
+// line summarises the encoding (length, count prefix, byte sum) instead of printing 260 KiB of hex.
+func wbig[T comparable](w *world, name string, n int, conv func(uint64) T) string {
+	elems := make([]T, 0, n)
+	for i := 0; i < n; i++ {
+		elems = append(elems, conv(uint64(i)))
+	}
+	s := ds.NewSet(elems...)
+	w.r.Count("codec-big:" + name + ",size=" + strconv.Itoa(n))
+	b, err := s.Encode(w.api)
+	if err != nil {
+		return "err"
+	}
+	d := ds.NewSet[T]()
+	dn, derr := d.Decode(w.api, b)
+	if derr != nil || dn != len(b) || d.Size() != n || !reflect.DeepEqual(d.ToSlice(), s.ToSlice()) {
+		w.r.Fail("codec-roundtrip", fmt.Sprintf("Set[%s] with %d elements: Decode(Encode(s)) has %d elements, consumed %d of %d bytes, err=%v (count prefix %s)", name, n, d.Size(), dn, len(b), derr, hx.Hex(b[:min(4, len(b))])),
+			map[string]string{"api": "Set.Encode/" + name, "oracle": "codec-roundtrip", "size": "big"})
+	}
+	om := serializableorderedmap.New[T, uint8]()
+	for i, e := range elems {
+		om.Set(e, uint8(i))
+	}
+	if mb, merr := om.Encode(w.api); merr == nil {
+		dm := serializableorderedmap.New[T, uint8]()
+		mn, mderr := dm.Decode(w.api, mb)
+		same := mderr == nil && mn == len(mb) && dm.Size() == n
+		i := 0
+		dm.ForEach(func(k T, v uint8) bool {
+			same = same && i < n && k == elems[i] && v == uint8(i)
+			i++
+
+			return true
+		})
+		if !same || i != n {
+			w.r.Fail("codec-roundtrip", fmt.Sprintf("SerializableOrderedMap[%s,uint8] with %d entries: Decode(Encode(m)) has %d entries, consumed %d of %d bytes, err=%v", name, n, dm.Size(), mn, len(mb), mderr),
+				map[string]string{"api": "SerializableOrderedMap.Encode/" + name, "oracle": "codec-roundtrip", "size": "big"})
+		}
+	}
+	var sum uint32
+	for _, x := range b {
+		sum += uint32(x)
+	}
+
+	return fmt.Sprintf("%d %s %d", len(b), hx.Hex(b[:min(4, len(b))]), sum)
 }
 
 // showElem prints an element as the unsigned number of its bit pattern (what the Lean model calls the element).
@@ -1726,6 +1785,8 @@ var corpus = [][]string{
 	// one-byte elements with zero-byte values, sizes 0, 1, 2, many; wider elements
 	{"wenc u8 -", "wenc u8 7", "wenc u8 200,7", "wenc u8 1,2,3,4,5,6,7,8,9,10,11,12", "wenc i8 255", "wenc i8 128,127,0", "wenc bool 1", "wenc bool 0,1",
 		"wenc u16 513", "wenc u32 4294967295,1", "wenc u64 18446744073709551615", "wenc u64 9223372036854775813,2,1099511627776"},
+	// sizes around 2^16: the entry count is a uint32
+	{"wbig u32 65535", "wbig u32 65536", "wbig u64 65537", "wbig u32 65543"},
 	// duplicate keys in the encoded bytes
 	{"mdec 02000000010005010007", "mdec 03000000010005020006010007", "dec 0 0200000003000300", "dec 1 03000000010002000100", "mfe", "slice 0"},
 	// arithmetic
